@@ -398,6 +398,18 @@ fn main() {
                 }
                 out
             }
+            // nts <rf> <rack code 0..3 per node>...: NetworkTopologyStrategy replicas (node indices) of a one-datacenter ring, walk starting at the first node
+            "nts" => {
+                let racks: Vec<Option<String>> = (2..a.len()).map(|i| match num(i) { 0 => None, r => Some(format!("r{}", r)) }).collect();
+                let got = vh::nts_walk(&racks, 0, num(1) as usize);
+                if got.is_empty() { "-".to_string() } else { got.iter().map(|i| i.to_string()).collect::<Vec<_>>().join(",") }
+            }
+            // ringrf <compressed max rf | -> <above keys k1,k2,..|-> <rf>: tag of the pre-computed ring handed out (0 = compressed, i+1 = i-th key) or None
+            "ringrf" => {
+                let c = if a[1] == "-" { None } else { Some(a[1].parse::<usize>().unwrap()) };
+                let above: Vec<usize> = a[2].split(',').filter(|s| *s != "-").map(|s| s.parse().unwrap()).collect();
+                match vh::precomputed_ring_for_rf(c, &above, a[3].parse().unwrap()) { Some(t) => t.to_string(), None => "None".to_string() }
+            }
             "token_new" => Token::new(num(1) as i64).value().to_string(),
             _ => "UNKNOWN".to_string(),
         };
